@@ -85,10 +85,7 @@ def check_relations(ctx, s, name, Hkl, exact_power, tag, closed_form=False):
         ctx.within("unit-norm-precoder", abs(fro(Fk) - 1.0), 64 * EPS * Nt_k, name,
                    d(user=k, norm=fro(Fk)))
         pw = fro(fFk) ** 2
-        # MMSE finds its Lagrange multiplier with a root finder and accepts
-        # P (1 + 1e-6) itself ("cost > P/1e6" is its failure criterion)
-        ctx.ev("power-limit", pw <= P[k] * (1 + (1e-6 if name == "mmse" else 1e-9)),
-               cls=name + ":exceeds",
+        ctx.ev("power-limit", pw <= P[k] * (1 + 1e-9), cls=name + ":exceeds",
                detail=d(user=k, power=pw, P=P))
         if exact_power:
             ctx.within("power-limit", fro(fFk - math.sqrt(P[k]) * Fk), 64 * EPS * Nt_k *
